@@ -75,6 +75,10 @@ func setupNS() (int, error) {
 	}
 	defer cleanup()
 	args := append([]string{"netns", "exec", mainNS, os.Args[0]}, os.Args[1:]...)
+	if sh := os.Getenv("VERIF_NS_EXEC"); sh != "" {
+		// run an arbitrary command (e.g. `go test -fuzz`) inside the private namespaces instead of this binary
+		args = []string{"netns", "exec", mainNS, "sh", "-c", sh}
+	}
 	cmd := exec.Command("ip", args...)
 	cmd.Env = append(os.Environ(), "VERIF_NS_MAIN="+mainNS, "VERIF_NS_PEER="+peerNS)
 	cmd.Stdout, cmd.Stderr, cmd.Stdin = os.Stdout, os.Stderr, nil
